@@ -680,24 +680,81 @@ func c20SDK(c *Ctx) {
 	// R4 (b) sdk/log batch settings chain
 	linfo := lx.Pkg.TypesInfo
 	if fn := c.Fn(lx, "R4", "newBatchConfig"); fn != nil {
-		inspectNoLit(fn.Body(), func(n ast.Node) bool {
-			call, ok := n.(*ast.CallExpr)
-			if !ok {
-				return true
+		// resolver kinds, by declaration (rename-tolerant), not by name
+		kindOf := map[*types.Func]string{}
+		for _, nm := range []string{"clearLessThanOne", "getenv", "fallback", "clampMax"} {
+			if h := lx.Func(nm); h != nil && h.Obj != nil {
+				kindOf[h.Obj] = nm
 			}
-			cf := callee(linfo, call)
-			if cf == nil || cf.Name() != "Resolve" {
-				return true
-			}
-			recv, _ := methodCall(linfo, call)
+		}
+		resolverNames := func(args []ast.Expr) []string {
 			var names []string
-			for _, a := range call.Args {
+			for _, a := range args {
+				nm := "?"
 				if ac, ok := unparen(a).(*ast.CallExpr); ok {
 					if f2 := callee(linfo, ac); f2 != nil {
-						names = append(names, f2.Name())
+						nm = f2.Name()
+						if k, known := kindOf[f2.Origin()]; known {
+							nm = k
+						}
 					}
 				}
+				names = append(names, nm)
 			}
+			return names
+		}
+		isResolve := func(call *ast.CallExpr) bool {
+			cf := callee(linfo, call)
+			return cf != nil && cf.Name() == "Resolve" && cf.Type().(*types.Signature).Recv() != nil
+		}
+		// chain flattens s.Resolve(a...).Resolve(b...) and helpers whose body is `return p.Resolve(...)` on a parameter p into the
+		// setting it starts from and the sequence of resolvers applied to it
+		var chain func(e ast.Expr, depth int) (ast.Expr, []string)
+		chain = func(e ast.Expr, depth int) (ast.Expr, []string) {
+			call, ok := unparen(e).(*ast.CallExpr)
+			if !ok || depth > 4 {
+				return e, nil
+			}
+			if isResolve(call) {
+				recv, _ := methodCall(linfo, call)
+				root, names := chain(recv, depth+1)
+				return root, append(names, resolverNames(call.Args)...)
+			}
+			h := lx.declByObj(callee(linfo, call))
+			if h == nil || h.Body() == nil || len(h.Body().List) != 1 {
+				return e, nil
+			}
+			rs, isR := h.Body().List[0].(*ast.ReturnStmt)
+			if !isR || len(rs.Results) != 1 {
+				return e, nil
+			}
+			root, names := chain(rs.Results[0], depth+1)
+			if len(names) == 0 {
+				return e, nil
+			}
+			ps := h.Obj.Type().(*types.Signature).Params()
+			for i := 0; i < ps.Len() && i < len(call.Args); i++ {
+				if sameVar(linfo, root, ps.At(i)) {
+					r2, n2 := chain(call.Args[i], depth+1)
+					return r2, append(n2, names...)
+				}
+			}
+			return e, nil
+		}
+		inner := map[ast.Node]bool{}
+		inspectNoLit(fn.Body(), func(n ast.Node) bool {
+			call, ok := n.(*ast.CallExpr)
+			if !ok || !isResolve(call) || inner[call] {
+				return true
+			}
+			// nested Resolve calls of the same chain are judged once, as part of the outermost
+			ast.Inspect(call.Fun, func(m ast.Node) bool {
+				if ic, isC := m.(*ast.CallExpr); isC && isResolve(ic) {
+					inner[ic] = true
+				}
+				return true
+			})
+			recv, names := chain(call, 0)
 			// first resolver sanitises the option; every getenv is followed by a clearLessThanOne; fallback last
 			good := len(names) >= 2 && names[0] == "clearLessThanOne" && names[len(names)-1] == "fallback"
 			for i, nm := range names {
@@ -903,6 +960,35 @@ func c20SDK(c *Ctx) {
 		if fn == nil {
 			continue
 		}
+		// the default is the int parameter; the parsing may live in a helper this function returns the result of
+		var def *types.Var
+		if ps := fn.Obj.Type().(*types.Signature).Params(); true {
+			for i := 0; i < ps.Len(); i++ {
+				if b, isB := ps.At(i).Type().(*types.Basic); isB && b.Kind() == types.Int {
+					def = ps.At(i)
+				}
+			}
+		}
+		outer := fn
+		work, paramOf := ex.workFunc(fn, func(n ast.Node) bool {
+			call, isC := n.(*ast.CallExpr)
+			return isC && isCallTo(einfo, call, "strconv.Atoi", "strconv.ParseInt")
+		})
+		delegated := true
+		if work != fn && def != nil {
+			outerDef := def
+			def = paramOf(def)
+			inspectNoLit(outer.Body(), func(n ast.Node) bool {
+				if rs, isR := n.(*ast.ReturnStmt); isR && len(rs.Results) == 1 {
+					call, isC := unparen(rs.Results[0]).(*ast.CallExpr)
+					if !(isC && callToDecl(einfo, work)(call)) && !sameVar(einfo, rs.Results[0], outerDef) {
+						delegated = false
+					}
+				}
+				return true
+			})
+			fn = work
+		}
 		g := ex.FG(fn)
 		// err != nil ⇒ return defaultValue
 		good := false
@@ -917,7 +1003,7 @@ func c20SDK(c *Ctx) {
 					for y := range s {
 						if rs, ok := y.N.(*ast.ReturnStmt); ok && inEdgeScope(y, e) {
 							k++
-							if v, isV := objOf(einfo, rs.Results[0]).(*types.Var); !isV || v.Name() != "defaultValue" {
+							if v, isV := objOf(einfo, rs.Results[0]).(*types.Var); !isV || def == nil || v != def {
 								only = false
 							}
 						}
@@ -927,6 +1013,8 @@ func c20SDK(c *Ctx) {
 				}
 			}
 		}
+		good = good && delegated
+		fn = outer
 		c.Check(good, "R5", "sdk/internal/env|"+nm+"|parse error ⇒ default", at(ex.M, fn.Pos()), "unparsable values are ignored", "an unparsable integer variable does not fall back to the default")
 	}
 	// firstInt: the next key is consulted only when this one is unset — a set key decides, whatever its value
